@@ -139,14 +139,14 @@ def run(ctx):
     K.report_mismatch(ctx, spec_violated)
     c = corrs[0][2] if corrs else K.Corr()
     hits = 0
-    if corrs and not c.mismatch and not c.err:
+    if corrs and not c.err:
         for i, (op, line) in enumerate(zip(c.ops, c.impl)):
             r = oracle({"ops": [op], "impl": [line]})
             if r:
                 hits += 1
                 fid, text = r
-                if fid in getattr(ctx, "confirmed", {}):
-                    continue
+                if fid in getattr(ctx, "confirmed", {}) or fid in K.known_ids(ctx.pid):
+                    continue   # a recorded finding (reported by decide_standard when the model predicts it)
                 ctx.violation("implementation violates the property: " + text,
                               {"correspondence": "C22", "drv_args": corrs[0][1], "ops": [op], "impl": [line],
                                "model": [c.model[i] if i < len(c.model) else "<missing>"]}, tag=fid)
